@@ -16,10 +16,11 @@ def info(path):
             fp = os.path.join(lev["dir"], fn)
             with open(fp, "rb") as f:
                 f.seek(off)
-                hl = len(f.readline())
+                hline = f.readline()
+                hl = len(hline)
             shape = [b - a + 1 for a, b in zip(lo, hi)]
             pl = int(np.prod(shape)) * lev["ncomp"] * 8
-            boxes.append({"bi": bi, "file": fn, "off": off, "hlen": hl, "plen": pl, "lo": lo, "hi": hi,
+            boxes.append({"bi": bi, "file": fn, "off": off, "hlen": hl, "plen": pl, "lo": lo, "hi": hi, "tail": _tail_marks(hline),
                           "shape": shape})
             files.setdefault(fn, []).append(bi)
         for fn in files:
@@ -85,6 +86,20 @@ def sites_c04(inf, levels=None, coords=False):
     return out
 
 
+def _tail_marks(hline):
+    """byte positions, inside a FAB header line, of the tokens that follow the data descriptor: `((lo) (hi) (type)) n`.
+    An offset moved there leaves a line whose *last* tokens still describe the box."""
+    k = hline.find(b")))")
+    if k < 0:
+        return []
+    k += 3                                   # the '((' that opens the box
+    marks = [k, k + 1, k + 2, k + 3]          # '((lo', '(lo', 'lo', second character of lo
+    sp = hline.find(b" ", k)
+    if sp > 0:
+        marks += [sp - 1, sp, sp + 1]        # ')' closing lo, the blank, '(hi'
+    return sorted({m for m in marks if 0 < m < len(hline) - 1})
+
+
 def sites_c20(inf, levels=None):
     """byte-level edits validation may tolerate"""
     out = []
@@ -93,7 +108,7 @@ def sites_c20(inf, levels=None):
             continue
         for b in L["boxes"]:
             bi = b["bi"]
-            for k in (1, 3, 4, 17, 40, b["hlen"] - 1, b["hlen"], -1, -3):
+            for k in [1, 3, 4, 17, 40, b["hlen"] - 1, b["hlen"], -1, -3] + list(b.get("tail", [])):
                 out.append({"op": "offset_shift", "lv": lv, "box": bi, "k": int(k)})
             for how in ("lead0", "plus", "blanks", "tab", "trailblank"):
                 out.append({"op": "fod_text", "lv": lv, "box": bi, "how": how})
